@@ -71,6 +71,7 @@ type Config struct {
 	MailGoroutine     bool     // leave MailNoGoroutine=false (schedule engine only)
 	SMTPMailer        bool     // use defaults.SMTPMailer (through the vsmtp shim)
 	AppRecoverEndHook bool     // the application registers, ahead of the modules, an After(EventRecoverEnd) handler that returns handled=true
+	EmptyLocalizer    bool     // a Localizer that has no translation for any of the library's keys (returns "", as the interface documents)
 	PerClientData     bool     // the application injects per-client template data into every request context (CTXKeyData)
 	LogMailer         bool     // use defaults.LogMailer writing into the world's mail stream (every Write is a scheduling point)
 }
@@ -512,6 +513,9 @@ func NewStack(cfg Config) (*Stack, error) {
 	}
 	ab.Config.Core.BodyReader = otpPages{br}
 	ab.Config.Core.Mailer = newMailer(s)
+	if cfg.EmptyLocalizer {
+		ab.Config.Core.Localizer = emptyLocalizer{}
+	}
 	ab.Config.Core.Logger = logger
 	ab.Config.Core.Hasher = hasher{s: s, inner: authboss.NewBCryptHasher(4)}
 
@@ -685,3 +689,8 @@ func (s *Stack) probeHandler(which string) http.HandlerFunc {
 		io.WriteString(w, "probe:"+which)
 	}
 }
+
+// emptyLocalizer knows no translation: the library falls back to its default texts.
+type emptyLocalizer struct{}
+
+func (emptyLocalizer) Localizef(context.Context, authboss.LocalizationKey, ...any) string { return "" }
